@@ -120,6 +120,33 @@ def main():
         want = [sc.get("filter_config"), sc.get("ban_duration"), sc.get("local_node_id"), sc.get("protocol_identity")]
         if args[:4] != want:
             diffs.append("RecvHandler::verif_new is called with %s, Handler::spawn configures the socket with %s" % (args[:4], want))
+        # the queues between the handler and the socket tasks: SendHandler::spawn / RecvHandler::spawn create them,
+        # the virtual handler repeats them (a handler that stopped waiting for room would lose packets only when
+        # the queue is as short as the real one)
+        send_src = open(os.path.join(a.repo, "src/socket/send.rs")).read()
+        recv_src0 = open(os.path.join(a.repo, "src/socket/recv.rs")).read()
+        def cap(src, start_pat, end_pat, what):
+            m = re.search(start_pat, src)
+            if not m:
+                raise SystemExit("ctor_parity: anchor %r not found" % start_pat)
+            seg = src[m.end():]
+            e = re.search(end_pat, seg)
+            seg = seg[:e.start()] if e else seg
+            c = re.findall(r"mpsc::channel\((\d+)\)", seg)
+            if len(c) != 1:
+                raise SystemExit("ctor_parity: expected one bounded channel in %s, found %s" % (what, c))
+            return c[0]
+        real_send = cap(send_src, r"fn\s+spawn\s*\(", r"let\s+mut\s+send_handler\s*=", "SendHandler::spawn")
+        real_recv = cap(recv_src0, r"fn\s+spawn\s*\(", r"let\s+mut\s+recv_handler\s*=", "RecvHandler::spawn")
+        hook_recv = cap(recv_src0, r"async\s+fn\s+verif_new\s*\(", r"RecvHandler\s*\{", "RecvHandler::verif_new")
+        m_out = re.search(r"let\s*\(wire_out_tx,\s*wire_out\)\s*=\s*mpsc::channel\((\d+)\)", hook_src)
+        m_in = re.search(r"let\s*\(wire_in,\s*socket_recv\)\s*=\s*mpsc::channel\((\d+)\)", hook_src)
+        if not m_out or not m_in:
+            raise SystemExit("ctor_parity: the virtual handler's wire channels were not found")
+        if m_out.group(1) != real_send:
+            diffs.append("Handler: the queue to the send task holds %s packets (SendHandler::spawn), the virtual wire %s" % (real_send, m_out.group(1)))
+        if m_in.group(1) != real_recv or hook_recv != real_recv:
+            diffs.append("Handler: the queue from the receive task holds %s packets (RecvHandler::spawn), the hook's %s / %s" % (real_recv, hook_recv, m_in.group(1)))
         recv_src = open(os.path.join(a.repo, "src/socket/recv.rs")).read()
         rr = struct_literal(recv_src, r"let\s+mut\s+recv_handler\s*=\s*RecvHandler\s*\{", "RecvHandler")
         i = recv_src.index("async fn verif_new")
